@@ -14,6 +14,17 @@ func e(err error) string {
 	return err.Error()
 }
 
+type raw []byte
+
+func (r raw) Put(b *bytes.Buffer) { b.Write(r) }
+func (r raw) Raw() []byte         { return r }
+
+// a value that is drained by its first Put
+type once struct{ left []byte }
+
+func (o *once) Put(b *bytes.Buffer) { b.Write(o.left); o.left = nil }
+func (o *once) Raw() []byte         { return []byte{1} }
+
 func main() {
 	fmt.Println(sample.SumEven([]byte{1, 2, 3, 4, 10, 7}), sample.SumEven(nil))
 	fmt.Println(sample.CountSteps(0), sample.CountSteps(1), sample.CountSteps(7), sample.CountSteps(8), sample.CountSteps(-3))
@@ -35,4 +46,9 @@ func main() {
 	fmt.Println(sample.Orders([8]byte{1, 2, 3, 4, 5, 6, 7, 0xf8}))
 	fmt.Println(sample.Format("Boot", -42, 0xbeef, 0x1234567890, 7))
 	fmt.Println(sample.Format("é\"x", 255, 10, 0, 255))
+	o := &sample.Outer{Sink: &sample.Sink{Base: 5}}
+	for _, name := range []string{"a", "c", "q", "zz", ""} {
+		fmt.Println(o.Store(name, raw{1, 2, 3}), o.Store(name, raw{1, 2}), o.Store(name, &once{left: []byte{9, 9, 9, 9}}), o.Store(name, &once{left: []byte{9}}))
+	}
+	fmt.Println(o.StoreBlob("b", []byte{1, 2, 3, 4}), o.StoreBlob("x", nil))
 }
